@@ -19,6 +19,10 @@ func main() {
 	switch os.Args[1] {
 	case "C11":
 		ck = harness.C11()
+	case "C12":
+		ck = harness.C12()
+	case "C13":
+		ck = harness.C13()
 	case "C14":
 		ck = harness.C14()
 	default:
